@@ -22,6 +22,15 @@ def run(ctx):
         ctx.extra["question_partitions"] = n
         routerfam.validate(ctx, part, only=["Inv_C04_", "Inv_C03_Header", "Inv_C03_Decodable", "Inv_C03_Answered", "Inv_C03_AtMostOne", "Inv_C07_StoreOwnKey", "Inv_C07_KeyEq", "Inv_C10_ExactQuestion", "Unconsumable"],
                            require_events=3000, timeout=3000)
+    # the lower layer the guarantee is assembled from: on multiplexed upstream connections (udp, tcp+pipeline) a
+    # reply reaches the exchange that owns its wire ID, and IDs are not handed out twice - a mix-up at that level
+    # needs a 1-in-65536 coincidence to show in the answers above, but not in the connection's own trace
+    import json
+    xdrv = vf.build_driver("xportdrv")
+    t = ctx.path("pipe.ndjson")
+    ctx.driver(xdrv, ["-mode", "pipe", "-n", 800 if ctx.quick else 6000, "-out", t], timeout=1200)
+    ctx.validate("PipelineTrace", t, lambda ev, inv: "%s:%s" % (inv, ev.get("ev", "?")),
+                 describe=lambda ev, inv: "%s at %s" % (inv, json.dumps(ev)[:300]), timeout=1800, require_events=3000, only=["Inv_C05_", "Unconsumable"])
     ctx.assumptions += [
         "schedules of the real code are sampled (48-96 concurrent clients over all 8 listener kinds, 4 upstream transports (udp, tcp, tcp+pipeline, DoH over http), eviction pressure, refresh windows, a reply arriving after the 6 s response timeout); interleavings are enumerated only in the component models (Pipeline, Reuse, Router)",
         "the trace is projected per question name before validation (per-question invariants; keeps TLC's state small): an answer that belongs to another question shows up as a token unknown in this question's partition",
